@@ -411,7 +411,10 @@ class CFG:
                 cur = self._expr(it.context_expr, cur)
                 n = self._new("with_enter", norm(it.context_expr)[:60], it.context_expr)
                 self._link(cur, n)
-                self._raise_edges(n, {"generic"})
+                fam = {"generic"}
+                if isinstance(it.context_expr, ast.Call) and not self._call_families(it.context_expr):
+                    fam = set()  # entering a freshly built stdlib context manager that cannot fail (ExitStack())
+                self._raise_edges(n, fam)
                 cur = [n]
                 if it.optional_vars is not None:
                     cur = self._stores([it.optional_vars], cur, s)
